@@ -18,6 +18,18 @@ inductive Guard where
   `ty` = asserted Go type; `nilChecked` = the site is under `x != nil` / after `if x == nil {return}`;
   `noneChecked` = the site is under `x != None`; `dflt` = Go type of the variable's initial value -/
   | format (fmt : List Char) (slot : Nat) (ty : GoTy) (nilChecked noneChecked : Bool) (dflt : Option GoTy)
+  /-- `self.(T)` in the Go function of a Method / an accessor of a Property that init() stores in
+  `<registeredOn>.Dict[...]` (and nowhere else: the function literal is anonymous); `asserted` = T as written;
+  `typeOfAsserted` = the `*Type` variable returned by T's `Type()` method (`func (x T) Type() *Type { return XType }`).
+  `others` = number of OTHER Go types whose `Type()` returns `registeredOn` (a value receiver counts `*T` too).
+  Discharged by `Bind.receiver_guarantee` when the two type variables agree and no other Go type shares the Python type. -/
+  | receiver (registeredOn asserted : String) (typeOfAsserted : Option String) (others : Nat)
+  /-- `self.(*py.Module)` in a named function listed in the method table of a module (`[]*py.Method{MustNewMethod("print", builtin_print, …)}`):
+  discharged by `Bind.module_function_self` when the asserted type is the module struct -/
+  | moduleSelf (asserted : String)
+  /-- `x.(T)` where `x` is the first result of an earlier call, in the same function, of a helper whose result type is
+  proved in the model (`Bind.makeBool_returns_bool`) -/
+  | result (fn : String) (ty : GoTy)
   | checked     -- an earlier comma-ok assertion / type switch on the same expression and type
   | startup     -- explicit panic in init() / Must*: package initialisation, not a Python-level action
 deriving DecidableEq, Repr, Inhabited
@@ -46,9 +58,15 @@ def formatDischarges (fmt : List Char) (slot : Nat) (ty : GoTy) (nilChecked none
      | _ => false) &&
     (decide (slot < p.min) || nilChecked || dflt == some ty || (noneChecked && dflt == some .noneType))
 
+/-- helpers whose first result has a proved Go dynamic type: (function, type, theorem) -/
+def resultContracts : List (String × GoTy) := [("MakeBool", .bool)]
+
 def Site.discharged (s : Site) : Bool :=
   match s.guard with
   | .none => false
+  | .receiver reg _ t others => t == some reg && others == 0
+  | .moduleSelf a => a == "*Module" || a == "*py.Module"
+  | .result fn ty => resultContracts.contains (fn, ty)
   | .format fmt slot ty n o d => formatDischarges fmt slot ty n o d
   | .checked => true
   | .startup => true
@@ -56,6 +74,9 @@ def Site.discharged (s : Site) : Bool :=
 def Site.isContract (s : Site) : Bool :=
   match s.guard with
   | .format .. => true
+  | .receiver .. => true
+  | .moduleSelf .. => true
+  | .result .. => true
   | _ => false
 
 /-- an OPEN OBLIGATION: nothing modelled makes the site safe; the sweep attacks it -/
